@@ -23,6 +23,7 @@ def main(argv):
     mod = importlib.import_module('vmon.props.' + prop)
     ctx = core.Ctx(prop, tier, seed, idx, getattr(mod, 'CLASSIFIERS', {}))
     try:
+        core.install_cpu_guard()
         ctx.notes['emmet_file'] = core.assert_repo_tree()
         with open(desc_path) as f:
             desc = json.load(f)
